@@ -83,6 +83,39 @@ theorem through_of_mem (d : UInt8) (l : Bytes) (h : d ∈ l) :
       obtain ⟨p, hp, hn⟩ := ih h
       exact ⟨b :: p, by simp [through, hb, hp], by simp [hb', hn]⟩
 
+theorem memchrWithin_some (d : UInt8) (k : Nat) (data : Bytes) (i : Nat)
+    (h : memchrWithin d k data = some i) :
+    data.take (i + 1) = through d data ∧ data.drop (i + 1) = after d data ∧ i < k := by
+  induction k generalizing data i with
+  | zero => simp [memchrWithin] at h
+  | succ k ih =>
+    cases data with
+    | nil => simp [memchrWithin] at h
+    | cons b bs =>
+      by_cases hb : b = d
+      · simp only [memchrWithin, hb, if_true, Option.some.injEq] at h
+        subst h
+        simp [through, after, hb]
+      · simp only [memchrWithin, hb, if_false, Option.map_eq_some_iff] at h
+        obtain ⟨j, hj, rfl⟩ := h
+        obtain ⟨h1, h2, h3⟩ := ih bs j hj
+        simp [through, after, hb, h1, h2, h3]
+
+theorem memchrWithin_none (d : UInt8) (k : Nat) (data : Bytes)
+    (h : memchrWithin d k data = none) : d ∉ data.take k := by
+  induction k generalizing data with
+  | zero => simp
+  | succ k ih =>
+    cases data with
+    | nil => simp
+    | cons b bs =>
+      by_cases hb : b = d
+      · simp [memchrWithin, hb] at h
+      · simp only [memchrWithin, hb, if_false, Option.map_eq_none_iff] at h
+        have := ih bs h
+        have hne : ¬ d = b := fun e => hb e.symm
+        simp [hne, this]
+
 /-- **Chunking independence of `read_until`.**  Whatever the schedule of chunk sizes, `read_until`
     appends exactly the bytes through the first delimiter (everything, if there is none) and leaves
     exactly what follows it in the stream. -/
@@ -95,26 +128,21 @@ theorem readUntil_eq (d : UInt8) (sched : List Nat) (data : Bytes) :
     | nil => simp [readUntil, through, after]
     | cons b bs =>
       simp only [readUntil]
-      generalize hdata : b :: bs = data
-      have hsplit : data = data.take (max c 1) ++ data.drop (max c 1) := (List.take_append_drop _ _).symm
-      by_cases hm : d ∈ data.take (max c 1)
-      · have hm2 : (data.take (max c 1)).contains d = true := by simpa using hm
-        simp only [hm2, if_true]
-        constructor
-        · conv => rhs; rw [hsplit, through_append, if_pos hm]
-        · conv => rhs; rw [hsplit, after_append, if_pos hm]
-          have hle := through_length_le d (data.take (max c 1))
-          have key := List.drop_append_of_le_length (l₂ := data.drop (max c 1)) hle
-          rw [List.take_append_drop] at key
-          rw [key, drop_through]
-      · have hm2 : (data.take (max c 1)).contains d = false := by simpa using hm
-        simp only [hm2, Bool.false_eq_true, if_false]
+      generalize b :: bs = data
+      split
+      · rename_i i hi
+        obtain ⟨h1, h2, _⟩ := memchrWithin_some d _ data i hi
+        exact ⟨h1, h2⟩
+      · rename_i hn
+        have hm := memchrWithin_none d _ data hn
+        have hsplit : data = data.take (max c 1) ++ data.drop (max c 1) :=
+          (List.take_append_drop _ _).symm
         obtain ⟨h1, h2⟩ := ih (data.drop (max c 1))
         constructor
         · conv => rhs; rw [hsplit, through_append, if_neg hm]
-          rw [h1]
+          simp only [h1]
         · conv => rhs; rw [hsplit, after_append, if_neg hm]
-          rw [h2]
+          simp only [h2]
 
 theorem readUntil_fst (d : UInt8) (sched : List Nat) (data : Bytes) :
     (readUntil d sched data).1 = through d data := (readUntil_eq d sched data).1
